@@ -78,6 +78,61 @@ def gen_agc_case(rng, quick):
     return bw, lo, hi, ops, k
 
 
+def gen_tl_case(rng, quick):
+    rate = rng.choice([8000, 11025, 16000, 22050, 32000, 44100, 48000, 96000, rng.range(8000, 192000)])
+    sps = bits(rate / 520.83)
+    bw = bits(rng.choice([0.125, 0.05, 0.0, 0.3, rng.below(500) / 1000.0]))
+    dev = bits(rng.choice([0.01, 0.0, 0.05, 0.5, rng.below(100) / 1000.0]))
+    n = rng.range(2, 80 if quick else 300)
+    kind = rng.choice(["unit", "unit", "agc-out", "big", "special", "any-finite"])
+    ins = []
+    for _ in range(n):
+        if kind == "unit":
+            s = bits((rng.below(4001) - 2000) / 1000.0)
+        elif kind == "agc-out":
+            s = bits((rng.below(2000001) - 1000000) / 1000.0)
+        elif kind == "big":
+            s = gen_sample(rng, "big")
+        elif kind == "special":
+            s = rng.choice(SPECIAL)
+        else:
+            s = gen_sample(rng, "any-finite")
+        o = bits((rng.below(1001) - 500) / 1000.0) if rng.chance(5, 6) else rng.choice([bits(-0.5), bits(0.5), bits(3.0), bits(-7.25), 0, 0x80000000])
+        ins.append((s, o))
+    return sps, bw, dev, ins, kind
+
+
+def tl_correspondence(ctx, rng, n, tag):
+    """TimingLoop: the implementation runs first (its constructor computes alpha, beta with libm, which the model takes as data)"""
+    from concurrent.futures import ThreadPoolExecutor
+    cases = [gen_tl_case(rng, ctx.quick) for _ in range(n)]
+    lines = ["tlrun %d %d %d %s" % (sps, bw, dev, ",".join("%d:%d" % so for so in ins)) for sps, bw, dev, ins, _ in cases]
+    impl = vlib.run_lines_parallel(vlib.IMPLRUN, lines)
+    exprs, keep = [], []
+    for (sps, bw, dev, ins, kind), line, im in zip(cases, lines, impl):
+        try:
+            vals = [int(t) for t in im.split(",")]
+        except ValueError:
+            ctx.violation("harness-failure", "tlrun failed: " + im[:100], {"input": line}); continue
+        cfg = vals[:5]
+        exprs.append("tloop_trace %d %d %d %d %d [%s]" % (cfg[0], cfg[1], cfg[2], cfg[3], cfg[4], "; ".join("(%d, %d)" % so for so in ins)))
+        keep.append((line, vals[5:], kind))
+    shard = max(1, (len(exprs) + vlib.NCPU - 1) // vlib.NCPU)
+    parts = [exprs[i:i + shard] for i in range(0, len(exprs), shard)]
+    with ThreadPoolExecutor(vlib.NCPU) as ex:
+        outs = list(ex.map(lambda p: coq_lists("tl_%s_%d" % (tag, p[0]), HEADER, p[1]), list(enumerate(parts))))
+    model = [r for part in outs for r in part]
+    mism, dist = 0, {}
+    for (line, iv, kind), mo in zip(keep, model):
+        dist[kind] = dist.get(kind, 0) + 1
+        if iv != mo:
+            mism += 1
+            k = next((j for j, (a, b) in enumerate(zip(iv, mo)) if a != b), None)
+            ctx.violation("correspondence", "the binary32 model (Flocq) of the timing loop and the implementation differ on %s (first difference at value %s)"
+                          % (line[:120], k), {"input": line, "model": mo[:400], "impl": iv[:400]})
+    return {"timing_loop_cases": len(exprs), "timing_loop_mismatches": mism, "timing_loop_case_kinds": dist}
+
+
 def coq_lists(name, header, exprs):
     """evaluate Gallina expressions of type list Z inside Coq; returns a list of lists of ints"""
     body = header + "".join("Eval vm_compute in (%s).\n" % e for e in exprs)
@@ -148,6 +203,13 @@ def correspondence(ctx, rng, n_dcb, n_agc, tag):
 def replay(line):
     im = vlib.run_lines(vlib.IMPLRUN, [line])[0]
     t = line.split(" ")
+    if t[0] == "tlrun":
+        vals = [int(x) for x in im.split(",")]
+        e = "tloop_trace %d %d %d %d %d [%s]" % (vals[0], vals[1], vals[2], vals[3], vals[4],
+                                                 "; ".join("(%s, %s)" % tuple(x.split(":")) for x in t[4].split(",")))
+        mo = coq_lists("fd_replay", HEADER, [e])[0]
+        print("impl :", im[:2000]); print("model:", ",".join(str(x) for x in mo)[:2000])
+        return 0 if vals[5:] == mo else 1
     if t[0] == "dcbrun":
         e = "dcb_trace %s [%s]" % (t[1], "; ".join(t[2].split(",")))
     else:
